@@ -72,4 +72,8 @@ theorem gen_conn_loop_identity_per_call : Gen.connLoopAuthPerCall = true := by d
 /-- regenerated from the source on every run: HandleCall copies the squashed identity into the request context for every flavor (AUTH_NONE runs as nobody, not as the zero value) -/
 theorem gen_identity_applied : Gen.handleCallAppliesIdentity = true := by decide
 
+/-- the squash mode the identities are computed under cannot be changed — or dropped — by a runtime policy update:
+    UpdatePolicyOptions returns early on `old.Squash != newPolicy.Squash` (an empty value included) -/
+theorem gen_squash_immutable : Gen.updatePolicyRejectsAnySquashChange = true := by decide
+
 end Props.C11
